@@ -305,7 +305,7 @@ int run_ts(Args const& a)
   find_dst_transitions();
   bool const tz_is_utc = (g_tz == "UTC" || g_tz == "UTC0" || g_tz == "Etc/UTC");
   TsGen gen{r, tz_is_utc};
-  uint64_t calls = 0, rejects = 0;
+  uint64_t calls = 0, rejects = 0, ambiguous_s = 0;
   for (uint64_t ci = 0; ci < cases; ++ci)
   {
     // ---- rejection cases
@@ -352,6 +352,26 @@ int run_ts(Args const& a)
       std::string_view got = f->format_timestamp(std::chrono::nanoseconds{inst[i]});
       std::string want = ref_format(c, inst[i]);
       ++calls;
+      if (got != want && c.has_s)
+      {
+        // libc computes %s as mktime(localtime(t)), which is not t at an ambiguous local time (the zone's offset
+        // decreases without a change of tm_isdst, e.g. Africa/Juba 2021-02-01): the true epoch second is accepted too
+        // (each of the two pattern parts is rendered by one path, so the choice is made per part)
+        std::string const epoch = std::to_string(inst[i] / 1000000000ll);
+        bool accepted = false;
+        for (int combo = 1; combo < 4 && !accepted; ++combo)
+        {
+          TsCase alt = c;
+          if (combo & 1) for (size_t pos = 0; (pos = alt.part1.find("%s", pos)) != std::string::npos; pos += epoch.size()) alt.part1.replace(pos, 2, epoch);
+          if (combo & 2) for (size_t pos = 0; (pos = alt.part2.find("%s", pos)) != std::string::npos; pos += epoch.size()) alt.part2.replace(pos, 2, epoch);
+          accepted = (got == ref_format(alt, inst[i]));
+        }
+        if (accepted)
+        {
+          ++ambiguous_s;
+          continue;
+        }
+      }
       if (got != want)
       {
         bad = true;
@@ -369,6 +389,7 @@ int run_ts(Args const& a)
   g_stats.add("ts_cases", cases);
   g_stats.add("ts_calls", calls);
   g_stats.add("ts_rejection_cases", rejects);
+  g_stats.add("ts_percent_s_at_ambiguous_local_time_accepted_as_true_epoch", ambiguous_s);
   g_stats.add("dst_transitions_found", g_dst.size());
   g_stats.sig("zones", g_tz);
   g_stats.flush();
